@@ -602,6 +602,36 @@ func init() {
 		},
 	})
 	eng.Register(&eng.Scenario{
+		Name: "pcontainer-errch-reuse", Props: []string{"C11"}, ObsNames: stdObs,
+		Doc:   "PromiseContainer: one caller awaits twice with the same error channel: the first AwaitWithErrCh returns the current promise's result; the container is emptied; the second AwaitWithErrCh must return the error that is then pushed to the channel - nothing left behind by the first await may consume it",
+		Quick: eng.Bounds{PB: 2}, Thorough: eng.Bounds{PB: 3},
+		Body: func() {
+			bg := context.Background()
+			c := promise.NewPromiseContainer[int]()
+			c.SetResult(5, nil)
+			errCh := make(chan error, 1)
+			if v, err := c.AwaitWithErrCh(bg, errCh); v != 5 || err != nil {
+				fail("C11.wrong-result", "first AwaitWithErrCh returned (%d,%v), the container holds (5,nil)", v, err)
+				return
+			}
+			c.SetPromise(nil)
+			vsched.Settle()
+			T("A", func() {
+				label(aLabels[aErrCh])
+				v, err := c.AwaitWithErrCh(bg, errCh)
+				label("")
+				if v != 0 || err != errChE {
+					fail("C11.wrong-result", "second AwaitWithErrCh (empty container) returned (%d,%v), want the error pushed to its channel", v, err)
+				}
+			})
+			T("X", func() { vsched.CtrSet(c11ChErr, 1); errCh <- errChE })
+			vsched.Settle()
+			if n := vsched.CountParked(aLabels[aErrCh]); n > 0 {
+				fail("C11.channel-ignored", "an error was pushed to the awaiter's error channel (empty container) but the awaiter is still parked: something else consumed it")
+			}
+		},
+	})
+	eng.Register(&eng.Scenario{
 		Name: "promise-chan-only", Props: []string{"C11"}, ObsNames: stdObs,
 		Doc:   "Promise that nobody resolves: AwaitWithErrCh must return when the error channel delivers or closes, AwaitWithCancelCh when the cancel channel closes (choice); the wake-up may not be swallowed",
 		Quick: eng.Bounds{PB: 3}, Thorough: eng.Bounds{PB: 5},
